@@ -1150,15 +1150,24 @@ func (c *ChannelWriter) mapDBAndCollectionName(db, collection string) (string, s
 		db = util.DefaultDbName
 	}
 	returnDB, returnCollection := db, collection
+	// the map iteration order is random, so rank the matches:
+	// exact collection entry > whole-database entry > any entry of the database (database-level lookup)
+	matchLevel := 0
 	c.nameMappings.Range(func(source, target string) bool {
 		sourceDB, sourceCollection := util.GetCollectionNameFromFull(source)
-		if sourceDB == db && sourceCollection == collection {
+		if sourceDB != db {
+			return true
+		}
+		switch {
+		case sourceCollection == collection:
 			returnDB, returnCollection = util.GetCollectionNameFromFull(target)
 			return false
-		}
-		if sourceDB == db && (sourceCollection == "*" || collection == "") {
+		case sourceCollection == "*" && matchLevel < 2:
 			returnDB, _ = util.GetCollectionNameFromFull(target)
-			return false
+			matchLevel = 2
+		case collection == "" && matchLevel < 1:
+			returnDB, _ = util.GetCollectionNameFromFull(target)
+			matchLevel = 1
 		}
 		return true
 	})
